@@ -126,6 +126,30 @@ def one_export(t, m, nodes, attrs, start, ml, dname, opts, ctx):
                 why = "read() and import_() disagree"
             elif not c10._all_instances(r1, cls):
                 why = "imported nodes have the wrong class"
+    if why is None and (not opts or opts.get("ensure_ascii") is False):
+        # what json.loads / json.load accept, import_ / read accept: bytes, bytearray, binary handles, and a handle that
+        # is positioned behind something the caller consumed already
+        want = ref_tree(m, attrs, start, 1, ml, aref, cref)
+        imp = JsonImporter()
+        variants = [("bytes", lambda: imp.import_(got.encode("utf-8"))), ("bytearray", lambda: imp.import_(bytearray(got.encode("utf-8")))),
+                    ("utf-16 bytes", lambda: imp.import_(got.encode("utf-16"))),
+                    ("binary handle", lambda: imp.read(io.BytesIO(got.encode("utf-8"))))]
+
+        def positioned():
+            fh = io.StringIO("# header line\n" + got)
+            fh.readline()
+            return imp.read(fh)
+        variants.append(("handle positioned behind a header line", positioned))
+        for vname, call in variants:
+            t.c["import_input_variants"] += 1
+            try:
+                r = call()
+                if not tree_eq(tree_of(r), want):
+                    why = "import from %s gives another tree" % vname
+            except Exception as exc:  # noqa
+                why = "import from %s raises %s" % (vname, type(exc).__name__)
+            if why:
+                break
     if why is None and not opts:
         # one importer object, the same text twice; the first tree is edited in place in between
         want = ref_tree(m, attrs, start, 1, ml, aref, cref)
@@ -235,5 +259,5 @@ def run(tier):
                 "non-empty attributes or more than one node" % (npart, len(VALUES), nfull, len(OPTIONS)),
         "bounds": {"full_upto": nfull, "max_nodes": npart, "trees": len(items)},
     }
-    return {"tally": t, "coverage": cov, "guards": ("nontrivial", "imports", "config_pairs", "importer_reuse_checks"),
+    return {"tally": t, "coverage": cov, "guards": ("nontrivial", "imports", "config_pairs", "importer_reuse_checks", "import_input_variants"),
             "assumptions": ["JSON value domain of %d dictionaries; NaN/Infinity are not JSON and excluded" % len(VALUES)]}
